@@ -40,6 +40,7 @@ func Spaces(tier string) []Space {
 			{"L1b", alphaL1b, "", "", 6, 2},
 			{"L2s-mbc", alphaL2s, "k /*é*/", ";", 6, 2},
 			{"L2s-mbq", alphaL2s, "k 'é'+", ";", 6, 2},
+			{"L2s-tail", alphaL2s, "\t\tk \"a", "\"; q r;", 6, 2},
 		}
 	}
 	return []Space{
@@ -52,6 +53,9 @@ func Spaces(tier string) []Space {
 		// a multi-byte rune in a comment or single-quoted piece on the line of an opening quote
 		{"L2s-mbc", alphaL2s, "k /*é*/", ";", 5, 2},
 		{"L2s-mbq", alphaL2s, "k 'é'+", ";", 5, 2},
+		// inside a double-quoted string that opens beyond two tabs, with another statement after the
+		// closing quote on the same line
+		{"L2s-tail", alphaL2s, "\t\tk \"a", "\"; q r;", 5, 2},
 	}
 }
 
